@@ -85,18 +85,18 @@ Proof. reflexivity. Qed.
 
 (* Any history, then the refresh timer fires and Apply() succeeds: every chain is at its target. *)
 Theorem history_converges : forall cf dall k0 ops fs,
-  cf_nft cf = false -> cfg_ok cf -> Forall (op_ok cf) ops ->
+  cfg_ok cf -> Forall (op_ok cf) ops ->
   let s := final cf dall (init cf k0) ops in
   let t := invalidate (m_table s) in
   no_racing fs -> noforge cf t (m_kernel s) ->
   let r := apply cf dall fs t (m_kernel s) in
   ao_result r = Success -> forall c, get c (ao_kernel r) = tgt cf t (m_kernel s) c.
 Proof.
-  intros cf dall k0 ops fs Hn Hk HF s t Hr NF r Hres c.
+  intros cf dall k0 ops fs Hk HF s t Hr NF r Hres c.
   assert (H : hinv cf (m_table s)). { apply history_hinv; auto. simpl. apply new_table_hinv; auto. }
   assert (W : winv cf t). { apply invalidate_winv. apply H. }
   subst r. rewrite apply_eq in *.
-  pose proof (apply_loop_converges cf dall 11 fs t (m_kernel s) [] Hn W eq_refl Hr NF) as P.
+  pose proof (apply_loop_converges cf dall 11 fs t (m_kernel s) [] W eq_refl Hr NF) as P.
   cbv zeta in P. destruct P as [_ C]. exact (C Hres c).
 Qed.
 
@@ -111,11 +111,11 @@ Proof.
 Qed.
 
 Theorem apply_converges : forall cf dall fs t k,
-  cf_nft cf = false -> winv cf t -> t_insync t = false -> no_racing fs -> noforge cf t k ->
+  winv cf t -> t_insync t = false -> no_racing fs -> noforge cf t k ->
   ao_result (apply cf dall fs t k) = Success ->
   forall c, get c (ao_kernel (apply cf dall fs t k)) = tgt cf t k c.
 Proof.
-  intros cf dall fs t k Hn W Hs Hr NF Hres c. rewrite apply_eq in *.
-  pose proof (apply_loop_converges cf dall 11 fs t k [] Hn W Hs Hr NF) as P.
+  intros cf dall fs t k W Hs Hr NF Hres c. rewrite apply_eq in *.
+  pose proof (apply_loop_converges cf dall 11 fs t k [] W Hs Hr NF) as P.
   cbv zeta in P. destruct P as [_ C]. exact (C Hres c).
 Qed.
